@@ -370,10 +370,18 @@ def run_forward(case):
             objs.append(('in-memory', e))
         for label, obj in objs:
             try:
+                if case['id'] % 2:
+                    # every other case: the encrypted object is looked at first, and decrypted a second time afterwards (same result): nothing
+                    # the first look or the first decryption left behind may change the second
+                    bytes(obj), str(obj), obj.is_encrypted, obj.type, set(obj.encrypters), list(obj)
                 dec = K[r[1]]['key'].decrypt(obj) if r[0] == 'key' else obj.decrypt(pw_of(r[1]))
                 got = msg_facts(dec)
                 if dec.is_encrypted:
                     fails.append('decrypt result still encrypted')
+                if case['id'] % 2:
+                    again = K[r[1]]['key'].decrypt(obj) if r[0] == 'key' else obj.decrypt(pw_of(r[1]))
+                    if msg_facts(again) != got or bytes(again) != bytes(dec):
+                        fails.append('PGPy decrypt (%s, recipient %d %s): a second decryption of the same object yields something else' % (label, ri, r[0]))
                 for f in want:
                     if got[f] != want[f]:
                         fails.append('PGPy decrypt (%s, recipient %d %s): %s differs: %s != %s' % (label, ri, r[0], f, _short(got[f]), _short(want[f])))
